@@ -241,7 +241,18 @@ def violation_matches(res: Dict[str, Any], key: str) -> Optional[Dict[str, Any]]
 
 def minimise(prop: str, trace: Dict[str, Any], key: str, wall_limit: float, tier: str = "quick",
              batch_seed: int = 0) -> Dict[str, Any]:
-    return in_child(_minimise, prop, trace, key, wall_limit, tier, batch_seed)
+    res = in_child(_minimise, prop, trace, key, wall_limit, tier, batch_seed)
+    if res.get("shrunk") and _judge(prop, [], res["trace"], res.get("key", key)) is None:
+        # The shrunk trace fails only because of what earlier candidates left behind in the child that
+        # did the shrinking (the run itself creates process-wide residue): shrink again, every candidate
+        # in its own pristine child.
+        t0 = res.get("resolved", trace)
+        res2 = _shrink_pristine(prop, [], t0, res.get("key", key), wall_limit)
+        if res2.get("shrunk"):
+            res2["history_before"] = res2["history_after"] = None
+            return res2
+        return {"trace": trace, "shrunk": False, "note": res2.get("note")}
+    return res
 
 
 def run_history(prop: str, history: List[Dict[str, Any]], trace: Dict[str, Any]) -> Dict[str, Any]:
@@ -255,38 +266,31 @@ def run_history(prop: str, history: List[Dict[str, Any]], trace: Dict[str, Any])
     return mod.execute(trace)
 
 
-def minimise_history(prop: str, batch_seed: int, tier: str, chunk: List[int], index: int, key: str,
+def _judge(prop: str, hist: List[Dict[str, Any]], t: Dict[str, Any], key: str):
+    try:
+        r = in_child(run_history, prop, hist, t)
+    except Exception:  # noqa: BLE001
+        return None
+    v = violation_matches(r, key)
+    return (v, r["digest"]) if v is not None else None
+
+
+def _shrink_pristine(prop: str, preds: List[Dict[str, Any]], final: Dict[str, Any], key: str,
                      wall_limit: float) -> Dict[str, Any]:
-    """The violation of run `index` needs what earlier runs of its chunk left behind in the
-    process.  Reproduce it from a pristine child, then drop predecessors (ddmin) and shrink
-    the final run while the same violation class persists; every candidate is judged in its
-    own pristine child."""
+    """Drop predecessors (ddmin) and shrink the final run while the same violation class persists;
+    every candidate is judged in its own pristine child of the template process."""
     import time
     from .shrink import ShrinkBudget, ddmin_list
     t_end = time.time() + wall_limit * 0.8
-    _STATE["batch_seed"] = batch_seed
     mod = get_prop(prop)
-    preds_idx = chunk[:chunk.index(index)]
-    preds = [mod.gen(run_seed(prop, batch_seed, j), j, tier) for j in preds_idx]
-    final = mod.gen(run_seed(prop, batch_seed, index), index, tier)
-
-    def judge(hist: List[Dict[str, Any]], t: Dict[str, Any]):
-        try:
-            r = in_child(run_history, prop, hist, t)
-        except Exception:  # noqa: BLE001
-            return None
-        v = violation_matches(r, key)
-        return (v, r["digest"]) if v is not None else None
-
-    if judge(preds, final) is None:
-        return {"shrunk": False, "note": "violation did not reproduce from the history of its chunk"}
+    if _judge(prop, preds, final, key) is None:
+        return {"shrunk": False, "note": "violation did not reproduce from a pristine process"
+                + (" and the history of its chunk" if preds else "")}
     budget = ShrinkBudget(400)
     n0 = len(preds)
-
-    def test(cand: List[Dict[str, Any]]) -> bool:
-        return time.time() < t_end and judge(cand, final) is not None
-
-    preds = ddmin_list(preds, test, budget)
+    if preds:
+        preds = ddmin_list(preds, lambda cand: time.time() < t_end and _judge(prop, cand, final, key) is not None,
+                           budget)
     size0 = mod.trace_size(final) if hasattr(mod, "trace_size") else None
     if hasattr(mod, "shrink") and time.time() < t_end:
         calls = [0]
@@ -295,19 +299,31 @@ def minimise_history(prop: str, batch_seed: int, tier: str, chunk: List[int], in
             calls[0] += 1
             if calls[0] > 300 or time.time() > t_end:
                 return False
-            return judge(preds, t) is not None
+            return _judge(prop, preds, t, key) is not None
 
         try:
             final = mod.shrink(final, still_fails)
         except Exception:  # noqa: BLE001
             pass
-    got = judge(preds, final)
+    got = _judge(prop, preds, final, key)
     if got is None:
-        return {"shrunk": False, "note": "history minimisation lost the violation"}
+        return {"shrunk": False, "note": "minimisation lost the violation"}
     return {"trace": final, "history": preds, "shrunk": True, "size_before": size0,
             "size_after": mod.trace_size(final) if hasattr(mod, "trace_size") else None,
             "history_before": n0, "history_after": len(preds), "violation": got[0], "digest": got[1],
             "key": key}
+
+
+def minimise_history(prop: str, batch_seed: int, tier: str, chunk: List[int], index: int, key: str,
+                     wall_limit: float) -> Dict[str, Any]:
+    """The violation of run `index` needs what earlier runs of its chunk left behind in the
+    process: reproduce it from a pristine child with the chunk prefix as history, then minimise."""
+    _STATE["batch_seed"] = batch_seed
+    mod = get_prop(prop)
+    preds_idx = chunk[:chunk.index(index)]
+    preds = [mod.gen(run_seed(prop, batch_seed, j), j, tier) for j in preds_idx]
+    final = mod.gen(run_seed(prop, batch_seed, index), index, tier)
+    return _shrink_pristine(prop, preds, final, key, wall_limit)
 
 
 def _minimise(prop: str, trace: Dict[str, Any], key: str, wall_limit: float, tier: str = "quick",
@@ -350,6 +366,7 @@ def _minimise(prop: str, trace: Dict[str, Any], key: str, wall_limit: float, tie
             return {"trace": trace, "shrunk": False, "note": "violation is not stable under re-execution in a used worker"}
         return {
             "trace": small,
+            "resolved": trace,
             "shrunk": True,
             "size_before": size0,
             "size_after": mod.trace_size(small) if hasattr(mod, "trace_size") else None,
